@@ -549,3 +549,142 @@ return y"%bs
   | _, _ => False
   end.
 Proof. vm_compute. repeat split; reflexivity. Qed.
+
+(* RESIDUAL (2), the parser half (Proofs/ParserExtent1-3.v, ReqEmbedStripFull.v): the two hypotheses about the
+   parser's statement ranges are theorems about the parser model.
+
+   C14_parse_extent - the statement-extent / block-balance theorem of Model/Parser.v, for every token list: the items
+   of the root chunk (statements and `;`) are laid end to end from token 0 to the final cursor (tiles); every
+   statement node is Node tag p e .. with p the cursor at which the statement was entered and e the cursor behind its
+   last token, the significant tokens of [p, e) are block-balanced (function / do / then / repeat open, end / until /
+   elseif close, never negative, zero at the end; a one-line if has neither then nor end), none of them at depth 0
+   looks like the head of a game-loop definition unless the statement is exposed (is, or contains in the body / else
+   part of a one-line if, such a definition), and a StatFunction node is the `function` keyword, a balanced middle and
+   its matching `end`, with the node's end directly behind that `end` (fun_ok).  Proved for every node the parser
+   builds, by one specification per parse function (36 of them) and induction over the recursion levels.
+   C14_strip_ranges_ok - for EVERY package file of the dialect the ranges build.py cuts satisfy ranges_ok.
+   C14_stripped_pkg - hence, with no hypothesis left: the package embedded without its game loop has exactly the
+   file's tokens outside those ranges, and meets the per-entry conditions of C14_tokens_spec_any_newline.
+   C14_strip_ranges_spec / C14_stripped_pkg_spec_clean_partial - and those are the file's tokens minus its top-level
+   game-loop definitions as Spec/RequireSpec.spec_strip describes them, for a file that the parser consumes entirely
+   (fully_parsed; by C08_complete every file with a derivation in the reference grammar is such a file:
+   C14_fully_parsed_of_derivation) and in which no game-loop definition stands directly in the body or else part of
+   a one-line if of the root chunk (shortif_clean).  The second condition cannot be dropped:
+   C14_spec_strip_shortif_refuted - `if (x) function _init() y=2 end` is one statement of the root chunk, build.py
+   keeps it (real code replayed: notes/C14.md), spec_strip - which sees tokens, not lines - removes the definition. *)
+From PV Require Import Spec.LuaTokens Spec.LuaGrammar Model.Parser Model.ParserInst Proofs.ParserTheorems Proofs.ParserComplete2
+  Proofs.ParserExtent2 Proofs.ReqEmbedStripFull.
+
+Theorem C14_parse_extent : forall ts root e, lua_parse ts = Ok (root, e) ->
+  chunk_ok ts game_loop_function_names root 0 e.
+Proof.
+  intros ts root e H.
+  exact (parse_extent ts lua_binops lua_unops game_loop_function_names lua_binops_nontrivia lua_unops_nontrivia
+           lua_binops_plain lua_unops_plain root e H).
+Qed.
+
+Theorem C14_strip_ranges_ok : forall c ss0 q ranges,
+  Forall byte c -> spec_lex c = Some ss0 -> from_lines (file_lines c) = Ok q ->
+  strip_ranges (rev' (root_stats (l_root q))) (l_toks q) = Ok ranges ->
+  StripRelex.ranges_ok (map recode (map unpos ss0)) (length (map unpos ss0)) ranges.
+Proof. exact strip_ranges_ok. Qed.
+
+Theorem C14_stripped_pkg : forall c ss0 q q',
+  Forall byte c -> spec_lex c = Some ss0 -> from_lines (file_lines c) = Ok q -> strip_lua q = Ok q' ->
+  exists ranges, strip_ranges (rev' (root_stats (l_root q))) (l_toks q) = Ok ranges /\
+    sig_views (concat (echo_lines q')) = Some (map tview (nontriv (drops (map unpos ss0) ranges))) /\
+    good_lines (echo_lines q').
+Proof. exact stripped_pkg_ranges. Qed.
+
+Theorem C14_strip_ranges_spec : forall c ss0 q ranges,
+  Forall byte c -> spec_lex c = Some ss0 -> from_lines (file_lines c) = Ok q ->
+  strip_ranges (rev' (root_stats (l_root q))) (l_toks q) = Ok ranges ->
+  fully_parsed q = true -> shortif_clean (l_root q) = true ->
+  StripRelex.ranges_ok (map recode (map unpos ss0)) (length (map unpos ss0)) ranges /\
+  nontriv (drops (map unpos ss0) ranges) = RequireSpec.spec_strip (nontriv (map unpos ss0)).
+Proof. exact strip_ranges_facts. Qed.
+
+Theorem C14_stripped_pkg_spec_clean_partial : forall c ss0 q q',
+  Forall byte c -> spec_lex c = Some ss0 -> from_lines (file_lines c) = Ok q -> strip_lua q = Ok q' ->
+  fully_parsed q = true -> shortif_clean (l_root q) = true ->
+  sig_views (concat (echo_lines q')) = Some (map tview (RequireSpec.spec_strip (nontriv (map unpos ss0)))) /\
+  good_lines (echo_lines q').
+Proof. exact stripped_pkg_full. Qed.
+
+(* the per-entry conditions of C14_tokens_spec_any_newline, for a package embedded WITHOUT its game loop from any
+   byte file of the dialect: the echoed code is in the dialect, its lines are good, its tokens are the file's tokens
+   outside the cut ranges - and, under the two conditions, the file's tokens minus its game-loop definitions *)
+Theorem C14_pkg_conditions_stripped : forall c ss0 q q',
+  Forall byte c -> spec_lex c = Some ss0 -> from_lines (file_lines c) = Ok q -> strip_lua q = Ok q' ->
+  lexes (Z * list Z * Z * Z * Z) sig_views (concat (echo_lines q')) /\
+  good_lines (echo_lines q') /\
+  (exists ranges, strip_ranges (rev' (root_stats (l_root q))) (l_toks q) = Ok ranges /\
+     toks (Z * list Z * Z * Z * Z) sig_views (concat (echo_lines q')) = map tview (nontriv (drops (map unpos ss0) ranges))) /\
+  (fully_parsed q = true -> shortif_clean (l_root q) = true ->
+   toks (Z * list Z * Z * Z * Z) sig_views (concat (echo_lines q')) = map tview (RequireSpec.spec_strip (nontriv (map unpos ss0)))).
+Proof. exact stripped_pkg_conditions. Qed.
+
+Theorem C14_fully_parsed_of_derivation : forall ls q g,
+  from_lines ls = Ok q ->
+  derives (map token_of_tok (l_toks q)) g = true -> line_scoped (map token_of_tok (l_toks q)) g = true ->
+  excl g = true ->
+  fully_parsed q = true.
+Proof. exact fully_parsed_of_derivation. Qed.
+
+Theorem C14_spec_strip_shortif_refuted :
+  match spec_lex shortif_witness, from_lines (file_lines shortif_witness) with
+  | Some ss0, Ok q =>
+    match strip_ranges (rev' (root_stats (l_root q))) (l_toks q) with
+    | Ok ranges =>
+      ranges = [] /\ fully_parsed q = true /\ shortif_clean (l_root q) = false /\
+      length (nontriv (drops (map unpos ss0) ranges)) = 18%nat /\
+      length (RequireSpec.spec_strip (nontriv (map unpos ss0))) = 10%nat
+    | Err _ => False
+    end
+  | _, _ => False
+  end.
+Proof. exact spec_strip_shortif_refuted. Qed.
+
+Print Assumptions C14_parse_extent.
+Print Assumptions C14_strip_ranges_ok.
+Print Assumptions C14_stripped_pkg.
+Print Assumptions C14_strip_ranges_spec.
+Print Assumptions C14_stripped_pkg_spec_clean_partial.
+Print Assumptions C14_pkg_conditions_stripped.
+Print Assumptions C14_fully_parsed_of_derivation.
+Print Assumptions C14_spec_strip_shortif_refuted.
+
+(* non-vacuity: a package with a game-loop definition between other statements; inside it a for loop, a one-line if
+   with an else part, a while loop and an ordinary if; after it a dotted look-alike and a one-line if whose body is an
+   ordinary function definition (allowed by shortif_clean).  Both conditions hold, the one range is the definition
+   from `function` to its matching `end`, and the embedded text is the file with that range blanked *)
+Definition ex_full : bytes := "local t={}
+function _update()
+ for i=1,3 do
+  if (t[i]) t[i]+=1 else t[i]=0
+  while t[i]>9 do t[i]-=1 end
+ end
+ if t[1] then return end
+end
+function t.draw() end
+if (t) function helper() end
+return t
+"%bs.
+Example C14_example_stripped_full :
+  match spec_lex ex_full, from_lines (file_lines ex_full) with
+  | Some ss0, Ok q =>
+    match strip_lua q, strip_ranges (rev' (root_stats (l_root q))) (l_toks q) with
+    | Ok q', Ok ranges =>
+      fully_parsed q = true /\ shortif_clean (l_root q) = true /\ ranges = [(7, 89)]%nat /\
+      length (RequireSpec.spec_strip (nontriv (map unpos ss0))) = 23%nat /\
+      concat (echo_lines q') = "local t={}
+ 
+function t.draw() end
+if (t) function helper() end
+return t
+"%bs
+    | _, _ => False
+    end
+  | _, _ => False
+  end.
+Proof. vm_compute. repeat split; reflexivity. Qed.
